@@ -391,7 +391,7 @@ def matches(finding, v):
     return False
 
 
-def write_evidence(prop, tier, seed, fam, r, mine, known, wall):
+def write_evidence(prop, tier, seed, fam, r, mine, known, wall, wire=None):
     pf = families.PROPS[prop]
     mc = r["model_checking"]
     ev = {
@@ -419,6 +419,8 @@ def write_evidence(prop, tier, seed, fam, r, mine, known, wall):
         "violations": len(mine),
         "known_findings_reported": known,
     }
+    if wire is not None:
+        ev["coverage"]["wire_level"] = wire
     edir = os.environ.get("VERIF_EVIDENCE_DIR", os.path.join(VERIF, "evidence"))
     os.makedirs(edir, exist_ok=True)
     json.dump(ev, open(os.path.join(edir, prop + ".json"), "w"), indent=1)
@@ -439,6 +441,13 @@ def run_check(prop, tier, seed):
         print("MACHINERY-ERROR property=%s %s" % (prop, e))
         return 2
     r = merge(rs)
+    xviols, xcov = [], None
+    if pf.get("extra"):
+        try:
+            xviols, xcov = __import__(pf["extra"]).extra(prop, tier, seed)
+        except Machinery as e:
+            print("MACHINERY-ERROR property=%s %s" % (prop, e))
+            return 2
     ids = set(pf.get("monitors", [prop]))
     mine = [v for v in r["violations"] if v["prop"] in ids]
     kf = known_findings()
@@ -459,19 +468,23 @@ def run_check(prop, tier, seed):
         except OSError:
             dst = v["replay"]
         out_fresh.append((v, dst))
-    write_evidence(prop, tier, seed, r["family"], r, fresh, sorted(set(known_lines)), time.time() - t0)
+    write_evidence(prop, tier, seed, r["family"], r, fresh + xviols, sorted(set(known_lines)), time.time() - t0, xcov)
     for l in sorted(set(known_lines)):
         print(l)
     print("property=%s tier=%s seed=%d family=%s: TLC %s distinct states; %d schedules / %d steps on the real code; "
           "%d diverged from the specification; %d monitored events; %d violations"
           % (prop, tier, seed, r["family"], sum(x["distinct"] for x in r["model_checking"]), r["runs"], r["steps"],
-             r["diverged_runs"], r["monitored_events"], len(fresh)))
+             r["diverged_runs"], r["monitored_events"], len(fresh) + len(xviols))
+          + ("; wire level: %d rows through the real client, %d violate" % (sum(xcov["rows_executed_by_the_real_client_against_the_simulated_node"].values()),
+                                                                             xcov["rows_violating"]) if xcov else ""))
     if r["diverged_runs"]:
         for d in r["first_divergences"][:2]:
             print("  divergence (not a verdict): run %s step %s %s: %s" % (d["run"], d["step"], d["label"], d["diff"][:300]))
     for v, dst in out_fresh:
         print("VIOLATION property=%s replay=%s   (%s; %s)" % (prop, dst, v["msg"], v["src"]))
-    return 1 if fresh else 0
+    for dst, msg, src in xviols:
+        print("VIOLATION property=%s replay=%s   (%s; %s)" % (prop, dst, msg, src))
+    return 1 if (fresh or xviols) else 0
 
 
 def replay(prop, path):
@@ -479,7 +492,7 @@ def replay(prop, path):
     rp = json.load(open(path))
     schedule_fams = {"health": {"monitor": "MonHealth"}, "async": {"monitor": "MonAsync"}, "member-cb": {"monitor": "MonMember"},
                      "member-sd": {"monitor": "MonMember"}}
-    if rp["family"] in ("chunk", "version", "config"):
+    if rp["family"] in ("chunk", "version", "config", "wire"):
         # function-level properties: the replay file names the failing input; the check itself is the replay
         print("replay of a function-level finding: re-running the whole table (%s)" % json.dumps(rp)[:600])
         return run_check(prop, os.environ.get("VERIF_TIER", "quick"), int(os.environ.get("VERIF_SEED", "1") or "1"))
